@@ -136,14 +136,16 @@ class JobArrayer:
         if not self.min_array_size:
             return
 
-        if self._monitor_thread.is_alive():
-            return
+        # Lock, otherwise two jobs added at the same time can each start a monitor thread.
+        with self._lock:
+            if self._monitor_thread.is_alive():
+                return
 
-        # Initialize a new Thread here in case a previous one has completed,
-        # since Threads can't be started more than once.
-        self._exit_flag.clear()
-        self._monitor_thread = threading.Thread(target=self._monitor_stale_jobs, daemon=True)
-        self._monitor_thread.start()
+            # Initialize a new Thread here in case a previous one has completed,
+            # since Threads can't be started more than once.
+            self._exit_flag.clear()
+            self._monitor_thread = threading.Thread(target=self._monitor_stale_jobs, daemon=True)
+            self._monitor_thread.start()
 
     def stop(self) -> None:
         self._exit_flag.set()
@@ -170,11 +172,13 @@ class JobArrayer:
     def get_stale_descrs(self) -> list[JobDescription]:
         """Submits jobs that haven't been touched in a while"""
         currtime = time.time()
-        stales = [
-            descr
-            for descr in self.pending
-            if (currtime - self.pending_timestamps[descr] > self.stale_time)
-        ]
+        # Lock, otherwise a job added at the wrong time changes the dicts while they are read.
+        with self._lock:
+            stales = [
+                descr
+                for descr in self.pending
+                if (currtime - self.pending_timestamps[descr] > self.stale_time)
+            ]
         return stales
 
     def submit_pending_jobs(self, descr: JobDescription) -> None:
@@ -200,4 +204,5 @@ class JobArrayer:
         else:
             self._submit_jobs(jobs)
 
-        self.num_pending -= len(jobs)
+        with self._lock:
+            self.num_pending -= len(jobs)
